@@ -40,7 +40,7 @@ struct any_of_printer
     os << " to be any of {";
     const char* sep = " ";
     trompeloeil::ignore(std::initializer_list<int>{
-        ((os << detail::exchange(sep, ", ") << compare),0)...
+        ((os << detail::exchange(sep, ", "), ::trompeloeil::print(os, compare)),0)...
     });
     os << " }";
   }
@@ -86,7 +86,7 @@ struct none_of_printer
     os << " to be none of {";
     const char* sep = " ";
     trompeloeil::ignore(std::initializer_list<int>{
-        ((os << detail::exchange(sep, ", ") << compare),0)...
+        ((os << detail::exchange(sep, ", "), ::trompeloeil::print(os, compare)),0)...
     });
     os << " }";
   }
@@ -132,7 +132,7 @@ struct all_of_printer
     os << " to be all of {";
     const char* sep = " ";
     trompeloeil::ignore(std::initializer_list<int>{
-        ((os << detail::exchange(sep, ", ") << compare),0)...
+        ((os << detail::exchange(sep, ", "), ::trompeloeil::print(os, compare)),0)...
     });
     os << " }";
   }
